@@ -74,6 +74,10 @@ REFUSAL = [
     ('plain ok', 'forall X (q(X) -> p(X)). forall X (r(X) -> p(X)). q(a) -> #false.', False),
     ('propositional ok', 'q -> p. not p -> #false.', False),
     ('mixed arity ok', 'forall X (q(X) -> p(X)). forall X Y (q(X) and q(Y) -> p(X, Y)).', False),
+    ('permuted head variables', 'forall V1 V2 (q(V1, V2) -> p(V1, V2)). forall V1 V2 (r(V1, V2) -> p(V2, V1)).', True),
+    ('permuted head variables arity 3', 'forall X Y Z (q(X, Y, Z) -> p(X, Y, Z)). forall X Y Z (r(X, Y, Z) -> p(Y, Z, X)).', True),
+    ('same variables different sort', 'forall X (q(X) -> p(X)). forall X$i (r(X$i) -> p(X$i)).', True),
+    ('identical heads three rules ok', 'forall X Y (q(X, Y) -> p(X, Y)). forall X Y (r(X, Y) -> p(X, Y)). forall X Y Z (s(X, Y, Z) -> p(X, Y)).', False),
 ]
 
 
@@ -152,6 +156,23 @@ def check_item(item):
         got_none = res[0] == 'none'
         if got_none == item['expect_none']:
             r.update(verdict='held-concrete', output='refused' if got_none else ftext_theory(res[1]))
+            if not got_none:
+                # an accepted hand-shaped theory must still be completed correctly: same obligations as for tau* theories
+                comp = list(res[1][1:])
+                formulas = list(th[1:])
+
+                def build(kw):
+                    ctx = Ctx(**kw)
+                    real = z3.And(*[ctx.cl(f) for f in comp]) if comp else z3.BoolVal(True)
+                    return ctx.order_axioms() + ctx.symbol_facts(), [(real, ref_completion(ctx, formulas, set()))]
+                res2 = driver.solve_equiv(build, 5000, ({}, {'relativize_int': True}, {'abstract_order': True}))
+                r2 = dict(r)
+                r2.update(key=r['key'] + '#sem', verdict=res2['verdict'], ms=res2['ms'],
+                          obligation='forall classical I: I |= completion(theory) <-> I |= reference Clark completion of the same theory')
+                if res2['verdict'] == 'sat':
+                    r2.update(signature='completion-meaning', detail='completion: %s ; countermodel: %s' % (ftext_theory(res[1])[:500], driver.model_text(res2['model'], 800)),
+                              replay={'request': render(('completion', th, ())), 'expected': render((res,)), 'smt2': res2['smt2']})
+                return [r, r2]
         else:
             r.update(verdict='violation-concrete', signature='completion-refusal:' + item['name'],
                      detail='expected %s, got %s' % ('refusal' if item['expect_none'] else 'a completion',
